@@ -189,11 +189,14 @@ def h_restart_busy(ctx):
     net, log, rnd = env.std_env(ctx, T)
     cg = T.clck_gen
     with env.symbolic(ctx):
-        hook = [None]
+        hook = [None]; threads = []
         class BusyThread(env.FakeThread):
+            def __init__(self, *a, **k):
+                env.FakeThread.__init__(self, *a, **k); threads.append(self)
             def join(self, timeout=None):
                 if hook[0] is not None: hook[0]()
-                env.FakeThread.join(self, timeout)
+                if timeout is None: env.FakeThread.join(self, timeout)
+                # a join with a timeout may return while the worker is still inside a long handler call: it stays alive
         class Thr(env.FakeThreading): Thread = BusyThread
         cg.threading = Thr
         start = ctx.int('start', 0, HYPER - 1)
@@ -207,6 +210,8 @@ def h_restart_busy(ctx):
             gen.stop()
         hook[0] = None
         ctx.check('stopped', gen.running is False)
+        # when stop() has returned, the worker has ended - or will end at its next wait because the breaker is still set
+        ctx.check('worker-ended-or-still-told-to-stop', all((not t.alive) or gen._breaker.is_set() for t in threads), alive=[t.alive for t in threads])
         with ctx.no_raise('start:no-exception'):
             gen.start()
         del seen[:]
